@@ -92,7 +92,70 @@ def _threshold_guard(ctx, spec, var_pred, count_pred, targets, what, key):
     return ctx.bad(spec, "%s is not enforced: %s; path: %s" % (what, msg, wit), fn, mod, key=key, detail={"path": wit})
 
 
+def _recover_cells(ctx):
+    """ShareSet.recover evaluated on every combination of (group count, group threshold, per group: member threshold x shares present):
+    the function looks at the shares only through these numbers, so one share set per combination decides all inputs.  Interpolation and
+    decryption are stand-ins that record their argument (free terms)."""
+    import itertools
+    from sa.cells import Evaluator, Obj, Raised, Undecided
+    spec = "shamir:ShareSet.recover"
+    mod, fn = rl.get(ctx, spec)
+
+    def share(g, m, mt):
+        return Obj("shamir", "Share", {"group_index": g, "member_index": m, "member_threshold": mt, "bytes": bytes([g, m]) * 8, "value": bytes([g, m]) * 8})
+    hooks = {("ShareSet", "recover_secret"): lambda b, data: ("RS", tuple(data)), ("ShareSet", "decrypt"): lambda b, secret, *a, **k: ("D", secret)}
+    cells = 0
+    for G in (1, 2, 3):
+        opts = list(itertools.product((1, 2, 3), (0, 1, 2, 3))) if G < 3 else list(itertools.product((1, 2), (0, 1, 2)))
+        for gt in range(1, G + 1):
+            for combo in itertools.product(opts, repeat=G):
+                if all(c == 0 for _, c in combo):
+                    continue
+                cells += 1
+                shares = [share(g, m, mt) for g, (mt, c) in enumerate(combo) for m in range(c)]
+                me = Obj("shamir", "ShareSet", {"shares": shares, "group_count": G, "group_threshold": gt})
+                try:
+                    r = Evaluator(ctx.repo, method_hooks=hooks).call(spec, [], self_obj=me)
+                except Raised:
+                    r = None
+                present = [(g, mt, c) for g, (mt, c) in enumerate(combo) if c]
+                enough = all(c >= mt for _, mt, c in present) and len(present) >= gt
+                desc = "group threshold %d, groups (member threshold, shares) = %s" % (gt, list(combo))
+                if r is not None and not enough:
+                    short = [g for g, mt, c in present if c < mt]
+                    why = "group %d has fewer shares than its member threshold" % short[0] if short else "%d group(s) present, fewer than the group threshold" % len(present)
+                    return [ctx.bad(spec, "%s: a secret is returned although %s" % (desc, why), fn, mod, key="member-threshold" if short else "group-threshold")]
+                if r is None and enough:
+                    return [ctx.bad(spec, "%s: recovery is refused although every threshold is met" % desc, fn, mod, key="group-threshold")]
+                if r is not None:
+                    secs = [(g, bytes([g, 0]) * 8 if mt == 1 else ("RS", tuple((m, bytes([g, m]) * 8) for m in range(c)))) for g, mt, c in present]
+                    want = ("D", secs[0][1]) if gt == 1 else ("D", ("RS", tuple(secs)))
+                    if r != want:
+                        return [ctx.bad(spec, "%s: the value decrypted is not the interpolation of all group secrets present (each the interpolation of all its member shares)" % desc,
+                                        fn, mod, key="group-threshold")]
+    # members of one group that disagree on the member threshold
+    for mts in ((1, 2), (2, 3), (2, 1)):
+        cells += 1
+        shares = [share(0, m, mt) for m, mt in enumerate(mts)] + [share(0, 2, mts[0])]
+        me = Obj("shamir", "ShareSet", {"shares": shares, "group_count": 1, "group_threshold": 1})
+        try:
+            Evaluator(ctx.repo, method_hooks=hooks).call(spec, [], self_obj=me)
+            return [ctx.bad(spec, "shares of one group with member thresholds %s are combined; differing member thresholds within a group are not rejected" % (mts,), fn, mod,
+                            key="member-consistent")]
+        except Raised:
+            pass
+    ctx.count("cells", cells)
+    return [ctx.ok(spec, "fewer group shares than the group threshold never reach interpolation + decryption (%d share-set cells evaluated)" % cells, fn, mod, key="group-threshold"),
+            ctx.ok(spec, "fewer member shares than the member threshold never reach interpolation", fn, mod, key="member-threshold"),
+            ctx.ok(spec, "member thresholds within a group must agree", fn, mod, key="member-consistent")]
+
+
 def c15_3(ctx):
+    from sa.cells import Undecided
+    try:
+        return _recover_cells(ctx)
+    except Undecided:
+        pass
     out = []
     out.append(_threshold_guard(
         ctx, "shamir:ShareSet.recover", lambda s: s == "self.group_threshold", lambda s: s == "len(share_data)",
